@@ -1,8 +1,8 @@
 """C29 — control responses reach the client intact, so list shows every chunk."""
 import re
 
-from sa.paths import gate_check, loops
-from sa.flow import origin_chain
+from sa.paths import gate_check, loops, Cfg
+from sa.flow import origin_chain, all_defs
 from sa.match import comparison, const_value
 from sa.build import AnalysisBroken
 from props.common import declref, stream_insertions, literal_text, switch_table
@@ -218,6 +218,77 @@ def run(ck):
             lim_ok = True
     ck.ob('C29.reader', 'C29.reader/line-limit', lim_ok, rl.loc(),
           'the client bounds a response line by max_control_stream_bytes() (as it bounds payloads), not by the 16 KiB request-line limit')
+
+    # byte completeness of the line reader: every byte taken off the socket is appended to the line, except the '\n' that
+    # ends the line and '\r' (CR LF framing); the rule is stated for a reader that consumes one byte per recv call
+    from collections import deque as _dq
+    from sa.match import holds as _holds
+    rcv = [i for i in rl.walk() if rl.nodes[i].get('callee') in ('recv', '::recv')]
+    if not rcv:
+        raise AnalysisBroken('no recv call in the control client line reader')
+    one = []
+    for c_ in rcv:
+        a_ = rl.call_args(c_)
+        flags = const_value(rl, a_[3])
+        buf = [j for j in rl.walk(a_[1]) if rl.nodes[j]['k'] == 'DeclRefExpr' and rl.nodes[j].get('dk') == 'Var']
+        if const_value(rl, a_[2]) == 1 and flags == 0 and len(buf) == 1:
+            one.append((c_, rl.nodes[buf[0]]['d']))
+    if len(one) != len(rcv):
+        raise AnalysisBroken('the control client line reader no longer consumes one byte per recv(…, 1, 0) call: the byte-completeness '
+                             'rule of C29 is stated for that shape and cannot be applied to %s' % rl.loc(rcv[0]))
+    cfgl = Cfg.of(rl)
+    for c_, bd in one:
+        def keeps(e, bd=bd):
+            nd = rl.nodes[e]
+            if nd['k'] == 'ReturnStmt' and rl.kids(e) and const_value(rl, rl.kids(e)[0]) == 0:
+                return True                # the read is reported as failed: the line is not used
+            return (nd.get('callee') or '').endswith(('::push_back', '::operator+=', '::append')) and \
+                any(rl.nodes[j]['k'] == 'DeclRefExpr' and rl.nodes[j].get('d') == bd for a2 in rl.call_args(e) for j in rl.walk(a2))
+        def excused(facts, bd=bd):
+            for f_ in facts:
+                h = _holds(rl, f_)
+                if h is None:
+                    continue
+                a2, op, b2 = h
+                da = declref(rl, a2)
+                if da == bd and op == '==' and const_value(rl, b2) in (10, 13):
+                    return True
+                if da is not None and da != bd and op in ('<=', '<', '==') and const_value(rl, b2) in (0, 1, -1) and \
+                        any(rl.is_in(c_, x) or x == c_ for k_, x, s_ in all_defs(rl, da)):
+                    return True            # recv returned <= 0: no byte was taken
+            return False
+        b0, i0 = cfgl.locate(c_)
+        # walk forward from the recv element; a path ends well at a keeping call or an excusing edge, badly when it reaches
+        # the recv again (next byte) or leaves the function
+        wit = None
+        seen = set()
+        dq = _dq([(b0, i0 + 1, ())])
+        while dq and wit is None:
+            b, frm, trail = dq.popleft()
+            es = cfgl.blocks[b]['e']
+            hit = False
+            for e in es[frm:]:
+                if isinstance(e, int) and keeps(e):
+                    hit = True
+                    break
+                if isinstance(e, int) and e == c_:
+                    wit = list(trail) + ['-> next recv without appending the byte']
+                    break
+            if hit or wit:
+                continue
+            if b == cfgl.exit:
+                wit = list(trail) + ['-> function exit without appending the byte']
+                break
+            for s_, label, facts in cfgl.out_edges(b):
+                if excused(facts):
+                    continue
+                if s_ in seen:
+                    continue
+                seen.add(s_)
+                d_ = cfgl.describe_edge(b, label) if label else None
+                dq.append((s_, 0, trail + ((d_,) if d_ else ())))
+        ck.ob('C29.reader', 'C29.reader/line-bytes-complete', wit is None, rl.loc(c_),
+              'every byte the client takes off the socket for a header line is appended to the line unless it is the terminating LF or a CR', wit)
 
     # ---- unescape is the inverse of escape ----------------------------------------------------------
     uf = [f for f in PC.fns if f.q.endswith('::unescape_field_value')]
